@@ -241,6 +241,7 @@ SetupHist(p) ==
                        exp |-> [up |-> 1, idle |-> 0, reg |-> {p[j] : j \in 1..i}]]]
 InitUp ==
   \E p \in Perms :
+    /\ \A a, b \in Conns : a # b => Dpid[a] # Dpid[b]           \* (all up at once: distinct switches)
     /\ now = 0 /\ nticks = 0 /\ reg = p
     /\ kt = Started([NoTimer EXCEPT !.st = "new", !.d = I, !.rec = TRUE, !.ss = TRUE], 0)
     /\ cst = [c \in Conns |-> "up"] /\ idle = [c \in Conns |-> 0] /\ pend = [c \in Conns |-> 0]
